@@ -45,7 +45,9 @@ def request_writers(run, F, E):
             path = E.path_to(fn, lambda g: g.m in FORBIDDEN)
             run.ob('C02.a', '%s::%s cannot reach request processing or a dispatcher' % (tk, m), path is None, where=fn.pat, detail=path,
                    key='%s::%s applies the request immediately' % (tk, m))
-            # the request assignment is a whole-object assignment executed on every path where _locked is false
+            # the request assignment is a whole-object assignment executed on every path where _locked is false (a public wrapper that
+            # only forwards its parameters to a non-public implementation is looked through)
+            fn = anchors.through_forwarders(F, fn)
             c = cfgmod.cfg_of(fn)
             asg = c.events(('call',), lambda n: (n.e.get('op') == '=' or n.e.get('m') == 'operator=') and ir.is_expr(n.e.get('obj')) and
                            E.lv(n.e['obj'], fn) == {('core', 'request')})
